@@ -290,6 +290,12 @@ SPEC = {
                                ["port", "interface", "seed", "batch_size", "status_interval", "kms_protection", "health_check_port",
                                 "client_stats_enabled", "persistence_directory", "fault_percentage", "num_workers"]]),
         },
+        "Kms": {
+            # (the variant of `load_seed` compiled without the awskms / gcpkms features — the last of the three definitions)
+            "file": "src/kms/mod.rs",
+            "lean_imports": ["Rough.Gen.ConfigExt"],
+            "functions": {"load_seed": {}},
+        },
         "Config": {
             "file": "src/config/mod.rs",
             "lean_imports": ["Rough.Gen.ConfigExt"],
